@@ -1,7 +1,7 @@
 (* Property C07 - race_ok: first success wins; error only when all failed, positional aggregate. *)
 From Coq Require Import List Arith Bool.
 Import ListNotations.
-Require Import ScanFull InstsFull Pass C11Groups PassProofs.
+Require Import ScanFull InstsFull Pass C11Groups PassProofs PassNoUnwind.
 
 (* kind = 0: array algorithm (in-order scan), 1: tuple algorithm (Indexer order), 2: Vec algorithm (MaybeDone).
    [Pk n s fin t] (Proofs/PassProofs.v): not finished - nobody succeeded, nothing returned, the error table holds for every child exactly
@@ -23,3 +23,10 @@ Example C07_witness :
   let w := race_ok_world 0 scs [OPollFresh; OFire 0 0; OPollFresh] in
   dropped _ w = false /\ results (strip (tr _ w)) = [OErrs [8; 9]].
 Proof. vm_compute. split; reflexivity. Qed.
+
+(* race_ok never unwinds by itself, for any number of children - zero included - and all three algorithms: an `EEndX` in the history implies that
+   a child's poll panicked.  So the hypothesis `dropped = false` above fails only through a drop or a child's panic. *)
+Theorem C07_race_ok_unwinds_only_on_child_panic kind scs ops :
+  In EEndX (strip (tr _ (race_ok_world kind scs ops))) -> In (EAns APanic) (strip (tr _ (race_ok_world kind scs ops))).
+Proof. exact (race_ok_unwinds_only_on_child_panic kind scs ops). Qed.
+Print Assumptions C07_race_ok_unwinds_only_on_child_panic.
